@@ -226,6 +226,6 @@ def selftest():
     good = replay(rec, None)
     _SCENES.clear()
     bad = replay(dict(rec, S=13), None)
-    ok = not good and bool(bad)
+    ok = not any("sig" in x for x in good) and any("sig" in x for x in bad)
     print("C04 selftest:", "ok" if ok else "FAILED", good[:1], bad[:1])
     return 0 if ok else 2
